@@ -1,4 +1,4 @@
-import ShuttleProofs.Lemmas.KernelBound
+import ShuttleProofs.Lemmas.KernelSim
 /-!
 # Concrete programs and schedulers used by the non-vacuity examples of C08 / C13 / C03
 -/
